@@ -18,7 +18,9 @@
 //! 2 000 (B/16 for the join without pruning, whose cost is quadratic in the input seen),
 //! 4 x batch_size x target_partitions / 4 rows per tail batch) — order-preserving merges
 //! only emit once batch_size merged rows are available, so the bound has to grow with batch_size
-//! (a source parks at 4·D so that slower partitions catch up). Two reference sets are computed per shape by a small model over the prefix:
+//! (a source parks at 4·D so that slower partitions catch up; if the query stalls on a parked input
+//! before the slowest partition reached D, safety is judged as usual and liveness only if it already
+//! holds — otherwise the case is inconclusive). Two reference sets are computed per shape by a small model over the prefix:
 //! `may` = every row of the final answer whose `ts` lies in the prefix; `must` ⊆ `may` = the rows
 //! whose delivery is demanded (all of `may`, because the tail pushes `ts` past every prefix value /
 //! frame end; nothing for LIMIT and the end-of-input-only shapes). Window shapes: the tail reuses
@@ -49,7 +51,8 @@
 //! passed the predicate in its output coalescer until `batch_size` of them have accumulated, also
 //! over an unbounded input; when later rows do not pass, the buffered rows are never delivered
 //! (RepartitionExec deliberately switches its coalescer off for unbounded inputs). Excluded
-//! sub-shape: UNION ALL whose second branch filter `v <= c + 3` has c + 3 < 0 (tail values are 0..6).
+//! sub-shape: UNION ALL whose second branch filter `v <= c2` has c2 < 0 (tail values are 0..6);
+//! all generated filters otherwise pass at least 4 of 7 tail rows, which the bound D covers.
 //!
 //! Things that looked like failures and were oracle errors (fixed in the model, not loosened):
 //! order-preserving merges emit only when batch_size merged rows are available → the bound D grows
@@ -129,6 +132,14 @@ pub enum QShape {
     WindowUnboundedFollowing,
 }
 
+/// Threshold of the second UNION ALL branch (`u WHERE v <= c2`). Tail values cycle through 0..6:
+/// for c >= 0 at least 4 of 7 tail rows pass (so a FilterExec output coalescer of batch_size rows
+/// fills within the bound D); for c < 0 no tail row ever passes — the known-finding sub-shape.
+/// In-between selectivities are not generated: the coalescer would need up to 7 x batch_size rows.
+fn union_c2(c: i8) -> i64 {
+    if c >= 0 { c as i64 + 3 } else { c as i64 }
+}
+
 /// one prefix row: key (0..6), ts increment, value
 type RowSpec = (u8, u8, i8);
 
@@ -175,7 +186,7 @@ impl QShape {
         };
         match self {
             QShape::FilterProject => format!("SELECT k, ts, v * 2 AS w FROM t WHERE v >= {c}"),
-            QShape::UnionAll => format!("SELECT k, ts, v FROM t WHERE v >= {c} UNION ALL SELECT k, ts, v FROM u WHERE v <= {}", c as i64 + 3),
+            QShape::UnionAll => format!("SELECT k, ts, v FROM t WHERE v >= {c} UNION ALL SELECT k, ts, v FROM u WHERE v <= {}", union_c2(c)),
             QShape::Merge => "SELECT k, ts, v FROM t ORDER BY ts".into(),
             QShape::ShjRange { jt, d } => {
                 let j = match jt {
@@ -379,7 +390,7 @@ fn reference(case: &Case, t: &[R], u: &[R], t0: i64) -> Reference {
     };
     match &case.shape {
         QShape::FilterProject => all(t.iter().filter(|r| r.v >= c).map(|r| vec![some(r.k), some(r.ts), some(r.v * 2)]).collect()),
-        QShape::UnionAll => all(t.iter().filter(|r| r.v >= c).chain(u.iter().filter(|r| r.v <= c + 3)).map(|r| vec![some(r.k), some(r.ts), some(r.v)]).collect()),
+        QShape::UnionAll => all(t.iter().filter(|r| r.v >= c).chain(u.iter().filter(|r| r.v <= union_c2(case.c))).map(|r| vec![some(r.k), some(r.ts), some(r.v)]).collect()),
         QShape::Merge => all(t.iter().map(|r| vec![some(r.k), some(r.ts), some(r.v)]).collect()),
         QShape::ShjRange { .. } | QShape::ShjNoRange => {
             let (jt, d) = match &case.shape {
@@ -556,6 +567,8 @@ async fn run_case(case: &Case) -> CaseResult {
     let mut failure: Option<String> = None;
     let mut last_ts: Option<i64> = None;
     let mut order_violation: Option<String> = None;
+    let mut progress_seen = 0u64;
+    let mut idle_polls = 0u32;
     loop {
         if monitor.min_tail_batches() >= dl {
             break;
@@ -567,6 +580,19 @@ async fn run_case(case: &Case) -> CaseResult {
             Err(_) => {
                 if monitor.all_capped() {
                     break;
+                }
+                // some partition is parked at its cap and nothing moved during three polls: the
+                // query waits for the parked input (e.g. a join consuming one side batch by batch
+                // against 1024-row merged batches of the other) — judge what was delivered so far
+                let now = monitor.batches();
+                if monitor.capped() > 0 && now == progress_seen {
+                    idle_polls += 1;
+                    if idle_polls >= 3 {
+                        break;
+                    }
+                } else {
+                    progress_seen = now;
+                    idle_polls = 0;
                 }
                 continue;
             }
@@ -633,6 +659,9 @@ async fn run_case(case: &Case) -> CaseResult {
     // LIMIT: the stream ends by itself after exactly n rows
     if let QShape::Limit { n } = shape {
         let n = (*n).max(1) as usize;
+        if !ended && min_tail < dl {
+            return CaseResult::inconclusive("deadline not reached: consumption too unbalanced").labels(labels);
+        }
         if !ended {
             return CaseResult::violation(format!("LIMIT {n}: the stream did not end although {total_rows} rows were delivered and every source partition produced {min_tail} tail batches; {}", ctx_msg())).labels(labels);
         }
@@ -648,13 +677,18 @@ async fn run_case(case: &Case) -> CaseResult {
     if ended {
         return CaseResult::violation(format!("the stream over an endless input ended by itself after {total_rows} rows; {}", ctx_msg())).labels(labels);
     }
-    if min_tail < dl {
-        // every executed partition is parked at its cap although some partition is below the deadline: impossible
-        // unless a partition was never executed
-        return CaseResult::inconclusive("deadline not reached although all executed partitions are capped").labels(labels);
+    // The deadline is missed only when the query stalls on an input that is parked at its cap while
+    // another one lags behind (very unbalanced consumption): safety is still judged, liveness only
+    // if it holds already.
+    let deadline_reached = min_tail >= dl;
+    if !deadline_reached {
+        labels.push("deadline-not-reached".into());
     }
 
     if shape.end_of_input_only() {
+        if !deadline_reached {
+            return CaseResult::inconclusive("deadline not reached: consumption too unbalanced").labels(labels);
+        }
         // (c) accepted although only answerable at end of input: it must at least deliver something
         if total_rows == 0 && !tf.is_empty() {
             return CaseResult::violation(format!("accepted query delivers nothing while the sources advance ({min_tail} tail batches per partition, non-empty input); {}", ctx_msg())).labels(labels);
@@ -673,6 +707,9 @@ async fn run_case(case: &Case) -> CaseResult {
     }
     // (a) liveness
     if let Some((row, n_must, n_del)) = not_contained(&reference.must, &delivered_bag) {
+        if !deadline_reached {
+            return CaseResult::inconclusive("deadline not reached: consumption too unbalanced").labels(labels);
+        }
         let what = if total_rows == 0 { "accepted query delivered nothing at all" } else { "row determined by the prefix not delivered" };
         return CaseResult::violation(format!(
             "{what}: {row:?} expected x{n_must}, delivered x{n_del} after every source partition produced {min_tail} further batches ({} of {} determined rows delivered, {total_rows} rows in total); {}",
@@ -708,7 +745,7 @@ impl Property for C50 {
         case_strategy(tier)
     }
     fn budget(&self, tier: Tier) -> Budget {
-        Budget::new(tier.pick(200, 10_000), tier.pick(8, 16)).min_nontrivial(tier.pick(50, 2_500)).case_timeout(240)
+        Budget::new(tier.pick(200, 6_000), tier.pick(8, 16)).min_nontrivial(tier.pick(50, 1_500)).case_timeout(240)
     }
     fn rule(&self) -> String {
         "case = query shape (10 streaming shapes, 5 end-of-input-only shapes) x prefix tables (1-3 partitions, 0-4 batches of 1-6 rows, ts monotone) x target_partitions x batch_size; \
@@ -725,10 +762,10 @@ impl Property for C50 {
     fn known_signature(&self, case: &Case) -> Option<String> {
         // finding "filter-coalescer-holds-rows": FilterExec keeps rows that pass the predicate in its
         // output coalescer until batch_size of them have accumulated; when the rest of an unbounded
-        // input never passes (UNION ALL branch `u WHERE v <= c + 3` with c + 3 < 0: tail values are
-        // 0..6) the buffered prefix rows are never delivered
+        // input never passes (UNION ALL branch `u WHERE v <= c2` with c2 < 0: tail values are 0..6)
+        // the buffered prefix rows are never delivered
         match case.shape {
-            QShape::UnionAll if (case.c as i64) + 3 < 0 => Some(SIG_FILTER_COALESCER.to_string()),
+            QShape::UnionAll if union_c2(case.c) < 0 => Some(SIG_FILTER_COALESCER.to_string()),
             _ => None,
         }
     }
@@ -740,7 +777,10 @@ impl Property for C50 {
         let r = rt.block_on(async {
             match tokio::time::timeout(Duration::from_secs(150), run_case(case)).await {
                 Ok(r) => r,
-                Err(_) => CaseResult::inconclusive("per-case timeout (150 s)"),
+                Err(_) => {
+                    eprintln!("c50: per-case timeout: {}", serde_json::to_string(case).unwrap_or_default());
+                    CaseResult::inconclusive("per-case timeout (150 s)").label(format!("timeout:{}", case.shape.name()))
+                }
             }
         });
         drop(rt);
